@@ -467,6 +467,12 @@ static void gen_c11(const std::string& tier, std::vector<Work>& W) {
                     { bytes sc = C({O(0x51), P(p.second), O(0x51), O(0xae)}); compare_explicit(c, sc, {{}, p.first}, fl, "listed pair in 1-of-1 multisig list=" + ldesc, "mock:listed-pair-multisig" + sh, V, S, L, with_tx, false, "c11"); }
                     { bytes sc = C({O(0x51), P(keys[2].pub), P(p.second), O(0x52), O(0xae)}); compare_explicit(c, sc, {{}, p.first}, fl & ~(F_STRICTENC | F_DERSIG | F_LOW_S | F_NULLFAIL), "listed pair as second key of 1-of-2 multisig list=" + ldesc, "mock:listed-pair-multisig2" + sh, V, S, L, with_tx, false, "c11"); }
                 }
+                // (1b) the listed signature written into the script itself (a push in front of the check): the pair is accepted in every
+                //      signature opcode regardless of the rules about signatures inside the script code
+                for (auto& p : L) {
+                    { bytes sc = C({P(p.first), P(p.second), O(0xac)}); compare_explicit(c, sc, {}, fl, "listed pair, signature pushed by the script, CHECKSIG list=" + ldesc, "mock:listed-pair-in-script", V, S, L, with_tx, false, "c11"); }
+                    { bytes sc = C({O(0x00), P(p.first), O(0x51), P(p.second), O(0x51), O(0xae)}); compare_explicit(c, sc, {}, fl, "listed pair, signature pushed by the script, 1-of-1 multisig list=" + ldesc, "mock:listed-pair-in-script-multisig", V, S, L, with_tx, false, "c11"); }
+                }
                 // (2) a signature other than the listed one offered for a mocked key is not accepted on the strength of the option
                 for (auto& p : L) { bytes sc = C({P(p.second), O(0xac)}); bool listed = false; for (auto& q : L) if (q.first == s3 && q.second == p.second) listed = true; if (!listed) compare_explicit(c, sc, {s3}, fl & ~(F_STRICTENC | F_DERSIG | F_LOW_S | F_NULLFAIL), "unlisted signature for a mocked key list=" + ldesc, "mock:other-signature", V, S, L, with_tx, false, "c11"); }
             }
@@ -534,6 +540,26 @@ static void gen_c11(const std::string& tier, std::vector<Work>& W) {
                 }
             }
         }, "mock pairs in auto-configured sessions " + type});
+    }
+    // a mocked check succeeds regardless of the transaction context: that includes the tapscript signature budget, which real checks draw on -
+    // a one-byte mock signature checked 1..6 times by one leaf (the budget derived from this small witness pays for two real checks)
+    for (int checks : {1, 2, 3, 4, 6}) for (bool annex : {false, true}) {
+        W.push_back({[=](Violations& V, Stats2& S) {
+            gen::Shape sh; sh.nin = 1; sh.pos = 0; sh.fund_vout = 1; sh.nout = 2; sh.tap_checks = checks;
+            gen::Spend G = gen::make_spend("p2tr-script", sh, 0, 1, annex);
+            bytes key(G.leaf_script.begin() + 1, G.leaf_script.begin() + 33);
+            bytes mock{0x5a};
+            for (int listed = 0; listed < 2; listed++) {
+                Tx tx = G.tx; tx.vin[0].witness[0] = mock;
+                std::string expr = listed ? "0x" + hex(mock) + ":0x" + hex(key) : std::string();
+                std::string label = "p2tr-script" + std::string(annex ? " annex" : "") + ": one-byte signature checked " + std::to_string(checks) + " time(s), pair " + (listed ? "listed" : "not listed");
+                J rj = JObj().put("engine", "mc_sig").put("mode", "c11-auto").put("tx", hex(ser_tx(tx))).put("txin", hex(ser_tx(G.fund))).put("list", expr).put("expect_ok", listed == 1).put("label", label).j();
+                note(rj.s);
+                std::string stage; bool ok = run_auto_mock(hex(ser_tx(tx)), hex(ser_tx(G.fund)), expr, stage);
+                S.sessions++; S.outcomes[ok ? "OK" : "invalid"]++;
+                if (ok != (listed == 1)) V.add(std::string("c11:auto:p2tr-script:repeated-mocked-checks:") + (ok ? "accepted" : "rejected"), label + ": the session must " + (listed ? "succeed" : "fail") + " but " + (ok ? "succeeds" : "fails at " + stage), rj);
+            }
+        }, "mocked checks vs the signature budget, " + std::to_string(checks) + " checks"});
     }
     // malformed lists
     W.push_back({[=](Violations& V, Stats2& S) {
